@@ -50,6 +50,7 @@ TEMPLATES = [
     ('global_two_names', 'HOLEA = 1\nHOLEB = 2\ndef f():\n    global HOLEA, HOLEB\n    HOLEA = HOLEB\n    HOLEB = HOLEC\n    return HOLEA\n'),
     ('local_import_mix', 'def f(path):\n    import HOLEA\n    first = HOLEA.load(path)\n    second = first + first\n    third = HOLEA.load(second)\n    return third, HOLEB, HOLEC\n'),
     ('nonlocal_two_levels', 'def f():\n    HOLEA = 1\n    def g():\n        HOLEB = 2\n        def h():\n            nonlocal HOLEA, HOLEB\n            HOLEA = HOLEB\n            return HOLEC\n        return h\n    return g\n'),
+    ('nested_classes', 'HOLEA = 1\nclass Outer:\n    HOLEA = 2\n    class Inner:\n        HOLEB = HOLEA\n        def m(self):\n            return HOLEA, HOLEB, HOLEC\n'),
     ('setcomp_cond', 'def f(HOLEA, t):\n    return {HOLEB for HOLEB in HOLEA if HOLEB != HOLEC if t(HOLEB)}\n'),
 ]
 
@@ -64,6 +65,8 @@ TAINT_TEMPLATES = [
     ('eval_in_lambda_default', 'def f(HOLEA, HOLEB=lambda: eval("1")):\n    HOLEC = HOLEA\n    return HOLEC\n'),
     ('eval_in_comprehension', 'def f(HOLEA):\n    HOLEB = [eval(HOLEC) for HOLEC in HOLEA]\n    return HOLEB\n'),
     ('literal_heavy_eval', 'def f(HOLEA):\n    HOLEB = "some long text" + "some long text" + "some long text" + "some long text"\n    return eval(HOLEA) + HOLEB + HOLEC\n'),
+    ('nested_class_shadow', 'class Outer:\n    def eval(self, HOLEA):\n        return HOLEA\n    class Inner:\n        def m(self, HOLEB):\n            HOLEC = HOLEB\n            return eval("HOLEC")\n'),
+    ('class_attr_named_locals', 'class K:\n    locals = ()\n    def m(self, HOLEA):\n        HOLEB = HOLEA\n        return locals(), HOLEB, HOLEC\n'),
     ('global_decl_trigger', 'def f(HOLEA):\n    global exec\n    HOLEB = HOLEA\n    return exec(HOLEB), HOLEC\n'),
 ]
 TRIGGERS = ('exec', 'eval', 'locals', 'globals', 'vars')
